@@ -483,17 +483,17 @@ pub fn run(ctx: &mut Ctx) {
     ctx.extra.insert("exhaustive_lengths_and_counts".into(), json!(ex.len()));
     ctx.enumerate("frontend_every_length", ex, |ctx, c| run_fe_case(ctx, c));
 
-    let n = ctx.tier.pick(30_000u32, 400_000u32);
+    let n = ctx.tier.pick(30_000u32, 4_000_000u32);
     let fes = (op_strategy(), reply_vals(), any::<bool>(), any::<bool>()).prop_map(|(op, rv, need_reply, all_features)| FeCase { op, rv, need_reply, all_features });
     ctx.prop_check("frontend", n, fes, |ctx, c| run_fe_case(ctx, c));
 
-    let n = ctx.tier.pick(20_000u32, 300_000u32);
+    let n = ctx.tier.pick(20_000u32, 3_000_000u32);
     let bes = (1u32..=44)
         .prop_flat_map(|code| (Just(code), wellformed_body(code), any::<bool>(), super::c04::req_strategy()))
         .prop_map(|(code, (body, nfds), need_reply, r)| BeCase { code, body, nfds, need_reply, outcome: if matches!(code, 2 | 16) { Outcome::default() } else { Outcome { val: if matches!(code, 1 | 15) { None } else { r.outcome.val }, ..r.outcome } } });
     ctx.prop_check("backend_server", n, bes, |ctx, c| run_be_case(ctx, c));
 
-    let n = ctx.tier.pick(10_000u32, 200_000u32);
+    let n = ctx.tier.pick(10_000u32, 2_000_000u32);
     let mm = (any::<u8>(), lat64(), lat64(), lat64(), 0u64..2).prop_map(|(id, a, b, len, fl)| {
         let len = len.max(1);
         let fit = |x: u64| if (x as u128 + len as u128) < (1u128 << 64) { x } else { u64::MAX - len };
@@ -503,7 +503,7 @@ pub fn run(ctx: &mut Ctx) {
     let brs = (0u8..5, valid_uuid(), mm, any::<bool>(), ho).prop_map(|(kind, uuid, mmap, reply_ack, handler)| BrCase { kind, uuid, mmap, reply_ack, handler });
     ctx.prop_check("backend_initiated", n, brs, |ctx, c| run_br_case(ctx, c));
 
-    let n = ctx.tier.pick(10_000u32, 200_000u32);
+    let n = ctx.tier.pick(10_000u32, 2_000_000u32);
     let gs = (0u8..12, proptest::collection::vec(lat32(), 10..=10), lat64(), prop_oneof![Just(0u16), 1u16..4096], any::<bool>(), any::<u8>())
         .prop_map(|(kind, w, m, data_len, with_fd, reply_seed)| GpuCase { kind, w, m, data_len, with_fd, reply_seed });
     ctx.prop_check("gpu", n, gs, |ctx, c| run_gpu_case(ctx, c));
